@@ -210,37 +210,42 @@ fn model(n: usize, rows: usize, sec: usize, dist: (usize, usize), expansion: (us
     Some(8 + (8 + t * path) + vecs + (8 + t * (8 + rows * FR)))
 }
 
-fn linear<S>(ctx: &mut Ctx, rng: &mut ChaCha20Rng, expansion: (usize, usize), pow2: bool)
+fn linear<S>(ctx: &mut Ctx, rng: &mut ChaCha20Rng, expansion: (usize, usize), pow2: bool, custom: Option<CkOf<S>>)
 where
     S: Scheme<F = LFr>,
-    CkOf<S>: LinCodeParametersInfo<MtParams, ColHasher<LFr>>,
+    S::PC: ark_poly_commit::PolynomialCommitment<LFr, POf<S>, VerifierKey = CkOf<S>, UniversalParams = CkOf<S>>,
+    CkOf<S>: LinCodeParametersInfo<MtParams, ColHasher<LFr>> + Clone,
 {
     let thorough = ctx.is_thorough();
     let sizes: Vec<usize> = if S::KIND == Kind::Univariate {
-        let mut v = vec![3usize, 15, 63, 255, 1023, 4095];
+        let mut v = vec![3usize, 15, 63, 255, 1023, 4095, 16383];
         if thorough {
-            v.push(16383);
+            v.push(65535);
         }
         v
     } else {
-        let mut v = vec![2usize, 4, 6, 8, 10, 12];
-        if thorough {
-            v.push(14);
+        let mut v = vec![2usize, 4, 6, 8, 10, 12, 14];
+        if thorough && S::NAME != "brakedown" {
+            v.push(16);
         }
         v
     };
     let mut seen: Vec<Value> = Vec::new();
     let (mut ok, mut ok_capped, mut n_capped, mut n_sqrt) = (true, true, 0usize, 0usize);
     let mut comm_sizes = std::collections::BTreeSet::new();
+    let mut sec_used = 0usize;
     for &s in &sizes {
         let cfg = if S::KIND == Kind::Univariate {
             Cfg { max_degree: s, num_vars: None, supported_degree: s, supported_hiding: 0, enforced: None }
         } else {
             Cfg { max_degree: 1, num_vars: Some(s), supported_degree: 1, supported_hiding: 0, enforced: None }
         };
-        let w = match make_world::<S>(&cfg, rng) {
-            Ok(w) => w,
-            Err(_) => return ctx.skipped("proof-within-4x-of-best-shape[t-capped]", "setup refused"),
+        let w = match &custom {
+            Some(ck) => World::<S> { cfg: cfg.clone(), pp: ck.clone(), ck: ck.clone(), vk: ck.clone() },
+            None => match make_world::<S>(&cfg, rng) {
+                Ok(w) => w,
+                Err(_) => return ctx.skipped("proof-within-4x-of-best-shape[t-capped]", "setup refused"),
+            },
         };
         let n = if S::KIND == Kind::Univariate { s + 1 } else { 1usize << s };
         let p: LPoly<S> = LabeledPolynomial::new("p".into(), S::gen_poly(&cfg, Shape::Full, s, rng), None, None);
@@ -249,6 +254,7 @@ where
             Err(_) => return ctx.skipped("proof-within-4x-of-best-shape[t-capped]", "commit refused"),
         };
         let sec = w.ck.sec_param();
+        sec_used = sec;
         let dist = w.ck.distance();
         let wf = w.ck.check_well_formedness();
         let _ = w.ck.supported_degree();
@@ -288,12 +294,12 @@ where
         seen.push(json!({"size": n, "t_capped_at_codeword_length": capped, "ratio_x100": psize * 100 / best.max(1), "n_rows": cm.metadata.n_rows, "n_cols": cm.metadata.n_cols, "n_ext_cols": cm.metadata.n_ext_cols, "proof_bytes": psize, "best_modelled": best, "commitment_bytes": csize}));
     }
     if n_sqrt > 0 {
-        ctx.check(ok, "proof-within-4x-of-best-shape[t-below-codeword-length]", "serialize", json!({"scheme": S::NAME, "sizes": sizes}), || json!({"observed": seen}));
+        ctx.check(ok, "proof-within-4x-of-best-shape[t-below-codeword-length]", "serialize", json!({"scheme": S::NAME, "sizes": sizes, "sec_param": sec_used}), || json!({"observed": seen}));
     } else {
         ctx.skipped("proof-within-4x-of-best-shape[t-below-codeword-length]", "no size on the ladder has t below the codeword length");
     }
     if n_capped > 0 {
-        ctx.check(ok_capped, "proof-within-4x-of-best-shape[t-capped]", "serialize", json!({"scheme": S::NAME, "sizes": sizes}), || json!({"observed": seen}));
+        ctx.check(ok_capped, "proof-within-4x-of-best-shape[t-capped]", "serialize", json!({"scheme": S::NAME, "sizes": sizes, "sec_param": sec_used}), || json!({"observed": seen}));
     }
     ctx.check(comm_sizes.len() == 1 && comm_sizes.iter().all(|c| *c == 3 * 8 + 8 + 32), "constant-size", "serialize", json!({"scheme": S::NAME, "artefact": "commitment"}), || json!({"sizes": comm_sizes}));
 }
@@ -307,7 +313,19 @@ pub fn run(ctx: &mut Ctx) {
     ctx.run_cases("ipa", n, |ctx, _i, rng| ipa(ctx, rng));
     ctx.run_cases("hyrax", n / 2, |ctx, _i, rng| hyrax(ctx, rng));
     ctx.run_cases("streaming", n / 4, |ctx, _i, rng| streaming(ctx, rng));
-    ctx.run_cases("ligero-uni", n / 4, |ctx, _i, rng| linear::<UniLigeroS>(ctx, rng, (4, 1), true));
-    ctx.run_cases("ligero-ml", n / 4, |ctx, _i, rng| linear::<MlLigeroS>(ctx, rng, (2, 1), true));
-    ctx.run_cases("brakedown", n / 8, |ctx, _i, rng| linear::<BrakedownS>(ctx, rng, (1760, 1000), false));
+    ctx.run_cases("ligero-uni", n / 4, |ctx, _i, rng| linear::<UniLigeroS>(ctx, rng, (4, 1), true, None));
+    ctx.run_cases("ligero-ml", n / 4, |ctx, _i, rng| linear::<MlLigeroS>(ctx, rng, (2, 1), true, None));
+    ctx.run_cases("brakedown", n / 8, |ctx, _i, rng| linear::<BrakedownS>(ctx, rng, (1760, 1000), false, None));
+    // lower security levels (fewer columns) move the square-root regime to smaller sizes
+    use ark_poly_commit::linear_codes::LigeroPCParams;
+    ctx.run_cases("ligero-uni/sec32", n / 4, |ctx, i, rng| {
+        let rho = [2usize, 4, 8][(i % 3) as usize];
+        let ck = LigeroPCParams::<LFr, MtParams, ColHasher<LFr>>::new(32, rho, true, (), (), ());
+        linear::<UniLigeroS>(ctx, rng, (rho, 1), true, Some(ck))
+    });
+    ctx.run_cases("ligero-ml/sec32", n / 4, |ctx, i, rng| {
+        let rho = [2usize, 4, 8][(i % 3) as usize];
+        let ck = LigeroPCParams::<LFr, MtParams, ColHasher<LFr>>::new(32, rho, true, (), (), ());
+        linear::<MlLigeroS>(ctx, rng, (rho, 1), true, Some(ck))
+    });
 }
